@@ -143,11 +143,27 @@ def inf_level(p, res):
         def is_dec(x):
             return isinstance(x, ast.Call) and isinstance(x.func, ast.Name) and x.func.id == 'should_format'
         t = tainted_names(p, f, is_dec)
-        if len(defs) == 1 and defs[0] is not None and src_of(defs[0]) in want and var not in t:
-            res.ok('%s: level += %s = %s' % (f.short, var, src_of(defs[0])))
-        else:
+        from .. import shape
+        pm = shape.parent_map(f.node)
+        # an if/else that assigns the two constants is the conditional expression spelled as statements
+        split = {}
+        for st in f.body_nodes():
+            if isinstance(st, ast.Assign) and len(st.targets) == 1 and isinstance(st.targets[0], ast.Name) and st.targets[0].id == var:
+                c = p.try_const(f, st.value)
+                facts = {fs: pol for fs, pol in shape.implied(st, pm)}
+                split[c if isinstance(c, int) and not isinstance(c, bool) else src_of(st.value)] = facts
+        as_ifexp = fq.endswith('indent_format.element') and len(defs) == 2 and set(split) == {0, 1} \
+            and split[1] == {'state.parent': True} and split[0] == {'state.parent': False}
+        if var in t:
             res.bad(F('INF-LEVEL', f, outer[0], '%s = %s' % (var, ' | '.join(src_of(d) for d in defs if d is not None)),
                       'what an element adds to the indentation level must be %s, independent of should_format(): an element that stays on its parent\'s line is still an open element for every line inside it' % want[0]))
+        elif (len(defs) == 1 and defs[0] is not None and src_of(defs[0]) in want) or as_ifexp:
+            res.ok('%s: level += %s = %s' % (f.short, var, want[0]))
+        elif len(defs) == 1 and defs[0] is not None and isinstance(p.try_const(f, defs[0]), int):
+            res.bad(F('INF-LEVEL', f, outer[0], '%s = %s' % (var, src_of(defs[0])),
+                      'what an element adds to the indentation level must be %s, not a constant' % want[0]))
+        else:
+            res.undecided('%s: %s = %s' % (f.short, var, ' | '.join(src_of(d) for d in defs if d is not None)), 'expected %s' % want[0])
     from .tablecheck import check_table
     check_table(p, res, 'INF-LEVEL', 'markup.format.html.get_indent', 'get_indent must be 0 for top level / snippet parent / formatSkip parent and 1 otherwise')
     # closing line: after the last formatted child the parent's closing tag goes on its own line one level up
